@@ -22,6 +22,7 @@ type specEnv struct {
 	names  map[string]Value // parameters, results, quantified variables
 	inOld  bool
 	params map[string]Value // entry values of the parameters (used inside old() in loop invariants)
+	localSt *State          // inside old(): the current state, where locals keep their current values
 }
 
 func (env *specEnv) with(name string, v Value) *specEnv {
@@ -169,7 +170,11 @@ func (env *specEnv) localAlloc(name string) *ssa.Alloc {
 			return
 		}
 		live := false
-		if _, ok := env.st.Cells[a]; ok {
+		ls := env.st
+		if env.localSt != nil {
+			ls = env.localSt
+		}
+		if _, ok := ls.Cells[a]; ok {
 			live = true
 		} else if _, ok := env.fr.vals[a]; ok && !env.x.localCell(a) {
 			live = true
@@ -206,13 +211,17 @@ func (env *specEnv) ident(name string) Value {
 	}
 	if a := env.localAlloc(name); a != nil {
 		t := deref(a.Type())
+		ls := env.st
+		if env.localSt != nil {
+			ls = env.localSt
+		}
 		if x.localCell(a) {
-			c := env.st.Cells[a]
+			c := ls.Cells[a]
 			c.T = t
 			return c
 		}
 		p := env.fr.vals[a]
-		return x.loadAt(env.st, t, p.L[0], p.L[1])
+		return x.loadAt(ls, t, p.L[0], p.L[1])
 	}
 	// free variables of closures
 	if env.fr != nil {
@@ -518,8 +527,11 @@ func (env *specEnv) call(e *ast.CallExpr) Value {
 				n := *env
 				n.st = env.old
 				n.inOld = true
-				// locals are not part of the pre-state; parameters have their entry values
-				n.fr = nil
+				// the heap is the pre-state's; locals keep their current values (their cells are
+				// looked up in the current state); parameters have their entry values
+				if n.localSt == nil {
+					n.localSt = env.st
+				}
 				if len(env.params) > 0 {
 					n.names = make(map[string]Value, len(env.names)+len(env.params))
 					for k, v := range env.params {
@@ -599,6 +611,10 @@ func (env *specEnv) call(e *ast.CallExpr) Value {
 				name := "ufb_" + sanitize(strings.Trim(exprString(e.Args[0]), `"`))
 				x.C.DeclareFun(name, []Sort{SBV64}, SBV8)
 				return Value{T: types.Typ[types.Uint8], L: []Term{app(SBV8, name, env.toBV64(env.eval(e.Args[1])))}}
+			case "ufstr":
+				name := "ufs_" + sanitize(strings.Trim(exprString(e.Args[0]), `"`))
+				t := x.C.Declare(name, SStr)
+				return Value{T: types.Typ[types.String], L: []Term{t}}
 			case "ufint":
 				name := "ufi_" + sanitize(strings.Trim(exprString(e.Args[0]), `"`))
 				t := x.C.Declare(name, SBV64)
@@ -756,9 +772,11 @@ func (env *specEnv) quantifier(forall bool, fl *ast.FuncLit) Value {
 	if out, ok := env.expandQuantifier(forall, p, t, ret); ok {
 		return out
 	}
-	x.C.noDefine++
-	body := inner.evalBool(ret)
-	x.C.noDefine--
+	body := func() Term {
+		x.C.noDefine++
+		defer func() { x.C.noDefine-- }()
+		return inner.evalBool(ret)
+	}()
 	if forall {
 		return Value{T: types.Typ[types.Bool], L: []Term{Forall(vars, body)}}
 	}
